@@ -1421,7 +1421,16 @@ class Models:
 
         def t_time(interp):
             if getattr(interp, "frozen_time", False):
-                # contract assumption "the peer reacts before any deadline": the clock does not advance
+                # contract assumption "the peer reacts before any deadline": the clock does not advance ...
+                patience = getattr(interp, "clock_patience", None)
+                if patience is not None:
+                    # ... but only for `patience` reads: code that has consulted the clock that often without finishing
+                    # is not making progress, and from then on every deadline has expired (so a stalled wait loop
+                    # ends the way it does in real time — by its time-out — instead of exhausting the unrolling budget)
+                    interp.clock_reads = getattr(interp, "clock_reads", 0) + 1
+                    if interp.clock_reads > patience:
+                        interp.ctx.notes.append("clock: %d reads without completion, deadlines expire" % patience)
+                        return V.STime(z3.BitVecVal(10 ** 15, W)) if interp.ctx.mode == "sym" else 1e9
                 return V.STime(z3.BitVecVal(0, W)) if interp.ctx.mode == "sym" else 0.0
             # time as integer ticks, monotone along a path (real-time behaviour is not decided)
             last = interp.ctx.__dict__.get("_now")
